@@ -181,7 +181,11 @@ fn tail_shape(view: &RefView) -> String {
 }
 
 /// Compare what the library exposes for an accepted message with the reference view.
-pub fn compare_view(buf: &[u8], msg: &Message, view: &RefView) -> ScResult {
+/// `check_prop`: the property under check.  A wrong by-type lookup of MESSAGE-INTEGRITY,
+/// MESSAGE-INTEGRITY-SHA256 or FINGERPRINT that is not about a hidden attribute contradicts both C02
+/// ("lookups return the first match" of the encoded sequence) and C10 ("exposed by iteration and
+/// lookup"); it is reported under whichever of the two is being checked.
+pub fn compare_view(buf: &[u8], msg: &Message, view: &RefView, check_prop: &str) -> ScResult {
     let hdr = |what: &str, got: String, want: String| Violation::new("C02", "header_fields", what, format!("accepted message: {what} is {got}, the buffer encodes {want}"));
     if lib_class(msg.class()) != view.class {
         return Err(hdr("class", format!("{:?}", msg.class()), format!("{}", view.class)));
@@ -227,7 +231,8 @@ pub fn compare_view(buf: &[u8], msg: &Message, view: &RefView) -> ScResult {
         let r = msg.raw_attribute(at);
         let h = msg.has_attribute(at);
         let hidden = view.all.iter().any(|a| a.ty == ty) && first.is_none();
-        let (prop, clause) = if hidden || ty == MI || ty == MI256 || ty == FP { ("C10", "lookup") } else { ("C02", "lookup_first_match") };
+        let ending = ty == MI || ty == MI256 || ty == FP;
+        let (prop, clause) = if hidden || (ending && check_prop != "C02") { ("C10", "lookup") } else { ("C02", "lookup_first_match") };
         match (first, &r) {
             (None, None) => {}
             (Some(w), Some(a)) if a.get_type().value() == ty && *a.value == *w.1 => {}
@@ -313,7 +318,7 @@ pub fn receive(ctx: &mut Ctx, buf: &[u8], o: &PipeOpts) -> ScResult {
                         if view.first_integrity.is_some() && view.all.last().map(|a| a.ty) == Some(FP) && view.all.len() - view.first_integrity.unwrap() == 3 {
                             ctx.st.inc("probe.both_integrity_attributes_and_fingerprint");
                         }
-                        compare_view(buf, msg, view)?;
+                        compare_view(buf, msg, view, &ctx.cfg.prop)?;
                     }
                     Verdict::Reject(causes) => {
                         let only_excess = causes.len() == 1 && matches!(causes[0], Cause::Excess { .. });
@@ -323,7 +328,7 @@ pub fn receive(ctx: &mut Ctx, buf: &[u8], o: &PipeOpts) -> ScResult {
                             ctx.st.inc("probe.overlong_buffer_accepted");
                             let declared = (((buf[2] as usize) << 8) | buf[3] as usize) + 20;
                             if let Verdict::Accept(view) = refcodec::decode(&buf[..declared]) {
-                                if compare_view(&buf[..declared], msg, &view).is_ok() {
+                                if compare_view(&buf[..declared], msg, &view, &ctx.cfg.prop).is_ok() {
                                     ok = true;
                                 }
                             }
@@ -386,14 +391,42 @@ pub fn receive(ctx: &mut Ctx, buf: &[u8], o: &PipeOpts) -> ScResult {
             let present: Vec<AttributeType> = attrs.iter().map(|a| a.get_type()).collect();
             let mut supported: Vec<AttributeType> = vec![];
             let mut required: Vec<AttributeType> = vec![];
-            let mode = ctx.ch.below(4);
+            // supported: nothing / everything present / a subset / everything present plus many
+            // others (so that large *required* sets are reached without tripping the 420 branch)
+            let mode = ctx.ch.below(5);
             for t in &present {
-                if mode == 1 || (mode >= 2 && ctx.ch.coin()) {
+                if mode == 1 || mode >= 3 || (mode == 2 && ctx.ch.coin()) {
                     supported.push(*t);
                 }
             }
-            if mode == 3 {
-                required.push(*ctx.ch.pick(&[Software::TYPE, Username::TYPE, Fingerprint::TYPE, MessageIntegrity::TYPE]));
+            if mode == 4 {
+                for (t, _) in crate::gen::KNOWN_TYPES {
+                    supported.push(AttributeType::new(*t));
+                }
+                let extra = ctx.ch.below(40);
+                for _ in 0..extra {
+                    supported.push(AttributeType::new(ctx.ch.below(1 << 16) as u16));
+                }
+            }
+            // required: none / one / a few / many (up to 80 entries, duplicates allowed), drawn from
+            // the types present, the known types and arbitrary 16-bit values, in drawn positions
+            let rsize = match ctx.ch.below(6) {
+                0 | 1 => 0,
+                2 => 1,
+                3 => ctx.ch.range(2, 5),
+                4 => ctx.ch.range(30, 40),
+                _ => ctx.ch.range(41, 80),
+            };
+            for _ in 0..rsize {
+                let t = match ctx.ch.below(3) {
+                    0 if !present.is_empty() => *ctx.ch.pick(&present),
+                    1 => AttributeType::new(crate::gen::KNOWN_TYPES[ctx.ch.below(crate::gen::KNOWN_TYPES.len() as u64) as usize].0),
+                    _ => AttributeType::new(ctx.ch.below(1 << 16) as u16),
+                };
+                required.push(t);
+            }
+            if rsize > 32 {
+                ctx.st.inc("probe.policing_required_set_larger_than_32");
             }
             if !msg.has_class(MessageClass::Request) {
                 ctx.st.inc("probe.policing_non_request");
